@@ -10,6 +10,7 @@ mod hooks;
 mod mmio;
 mod out;
 mod scen_layout;
+mod scen_life;
 mod scen_vq;
 mod zoo;
 mod transport;
@@ -56,6 +57,14 @@ pub fn run_parallel<J: Send + Sync + 'static>(
     f: impl Fn(&J, usize) -> (Vec<String>, Value) + Send + Sync + 'static,
     out: Arc<out::Out>,
 ) -> Vec<Value> {
+    run_parallel_multi(jobs, move |j, k| { let (l, s) = f(j, k); (vec![l], s) }, vec![out])
+}
+
+pub fn run_parallel_multi<J: Send + Sync + 'static>(
+    jobs: Vec<J>,
+    f: impl Fn(&J, usize) -> (Vec<Vec<String>>, Value) + Send + Sync + 'static,
+    outs: Vec<Arc<out::Out>>,
+) -> Vec<Value> {
     let jobs = Arc::new(jobs);
     let next = Arc::new(AtomicUsize::new(0));
     let f = Arc::new(f);
@@ -63,7 +72,7 @@ pub fn run_parallel<J: Send + Sync + 'static>(
     let nthreads = std::cmp::min(14, std::cmp::max(1, jobs.len()));
     let mut hs = vec![];
     for _ in 0..nthreads {
-        let (jobs, next, f, out, results) = (jobs.clone(), next.clone(), f.clone(), out.clone(), results.clone());
+        let (jobs, next, f, outs, results) = (jobs.clone(), next.clone(), f.clone(), outs.clone(), results.clone());
         hs.push(
             std::thread::Builder::new()
                 .stack_size(256 << 20)
@@ -73,7 +82,9 @@ pub fn run_parallel<J: Send + Sync + 'static>(
                         break;
                     }
                     let (lines, summary) = f(&jobs[k], k);
-                    out.block(&lines);
+                    for (o, l) in outs.iter().zip(lines.iter()) {
+                        o.block(l);
+                    }
                     results.lock().unwrap()[k] = summary;
                 })
                 .unwrap(),
@@ -82,7 +93,9 @@ pub fn run_parallel<J: Send + Sync + 'static>(
     for h in hs {
         h.join().expect("worker thread");
     }
-    out.finish();
+    for o in outs.iter() {
+        o.finish();
+    }
     Arc::try_unwrap(results).unwrap().into_inner().unwrap()
 }
 
@@ -97,6 +110,7 @@ fn main() {
     let code = match args.family.as_str() {
         "vq" => family_vq(&args),
         "layout" => family_layout(&args),
+        "life" => family_life(&args),
         f => {
             eprintln!("unknown family {f}");
             2
@@ -168,6 +182,24 @@ fn family_layout(args: &Args) -> i32 {
     let index: Vec<Value> = jobs.iter().enumerate().map(|(k, p)| json!({"sc": format!("layout-{k}"), "params": p.to_json()})).collect();
     let res = run_parallel(jobs, |p, k| run(p, &format!("layout-{k}")), out.clone());
     let idx = json!({"family":"layout","scenarios":index,"summaries":res,"events":out.events.load(Ordering::Relaxed)});
+    std::fs::write(format!("{}.index.json", args.out), serde_json::to_string(&idx).unwrap()).unwrap();
+    0
+}
+
+fn family_life(args: &Args) -> i32 {
+    use scen_life::*;
+    let jobs: Vec<LifeParams> = if let Some(r) = &args.replay {
+        let v: Value = serde_json::from_str(&std::fs::read_to_string(r).expect("replay file")).expect("json");
+        vec![LifeParams::from_json(&v["params"])]
+    } else {
+        all_params(args.tier == "thorough", args.seed)
+    };
+    let out = Arc::new(out::Out::create(&args.out));
+    let outq = Arc::new(out::Out::create(&format!("{}.q.ndjson", args.out)));
+    let index: Vec<Value> = jobs.iter().enumerate().map(|(k, p)| json!({"sc": format!("life-{k}"), "params": p.to_json()})).collect();
+    let res = run_parallel_multi(jobs, |p, k| run(p, &format!("life-{k}")), vec![out.clone(), outq.clone()]);
+    let idx = json!({"family":"life","scenarios":index,"summaries":res,"events":out.events.load(Ordering::Relaxed),
+                     "qevents":outq.events.load(Ordering::Relaxed)});
     std::fs::write(format!("{}.index.json", args.out), serde_json::to_string(&idx).unwrap()).unwrap();
     0
 }
